@@ -215,7 +215,7 @@ func runC13(e *core.Env) {
 }
 
 func c13RunJSON(e *core.Env, r *core.Rand, f string, q query, clock timeT, viaCLI bool, cpus int) (string, string) {
-	if viaCLI {
+	if viaCLI && q.cliOK() {
 		args := append(append([]string{"json"}, q.Args()...), f)
 		res := obs.RunCLI(obs.CLIEnv{ConfigDir: e.Dir + "/cfg", Cpus: cpus, Clock: clock}, args...)
 		if res.Panic != nil {
